@@ -377,7 +377,7 @@ func (w *World) Enabled(op Op) bool {
 	case OpLoad, OpLoadNoCache:
 		return w.Roots[op.B] != nil
 	case OpClone:
-		return w.Trees[op.A] != nil && op.A != op.B
+		return w.Trees[op.A] != nil // A == B: continue on the clone, dropping the original
 	case OpDrop:
 		return w.Trees[op.A] != nil && op.A != 0
 	case OpFlushCache:
@@ -538,14 +538,18 @@ func (w *World) apply(op Op) Res {
 		if r.Err != nil || r.Panic != nil {
 			return r
 		}
-		r.Calls = w.Store.Calls("")
+		if w.Store != nil {
+			r.Calls = w.Store.Calls("")
+		}
 		w.Trees[op.B] = &m2
-		w.Model[op.B] = copyModel(w.Model[op.A])
-		w.Base[op.B] = w.Base[op.A]
-		w.Mod[op.B] = nil
-		w.HChg[op.B] = w.HChg[op.A]
-		for k := range w.Mod[op.A] {
-			w.touch(op.B, k)
+		if op.A != op.B {
+			w.Model[op.B] = copyModel(w.Model[op.A])
+			w.Base[op.B] = w.Base[op.A]
+			w.Mod[op.B] = nil
+			w.HChg[op.B] = w.HChg[op.A]
+			for k := range w.Mod[op.A] {
+				w.touch(op.B, k)
+			}
 		}
 		return r
 	case OpCursor:
